@@ -514,34 +514,164 @@ def r5_skeleton(R, unit: FUnit) -> None:
 
 # ---------------------------------------------------------------------------
 def r6_equation_rewrite(R) -> None:
-    f = Fn(R, BFD)
-    pats = [n for n in f.cfg.nodes if n.kind == 'stmt' and isinstance(n.ast, ast.Assign) and is_call(n.ast.value, 're.compile')]
-    if not R.require(BFD, len(pats), 'pattern = re.compile(NAME[index])', fi=f.fi, pred=lambda x: is_call(x, 're.compile')):
+    import re as _re
+    from fsa.match import atoms_equal, nnf_atoms
+    from fsa.strshape import shape, show
+    from rules.solver_common import expr
+    top = Fn(R, BFD)
+    sym_param = (top.fi.params() + ['symbols'])[0]
+    # no function on the generation path keeps state between calls (a cache keyed by less than every input makes the
+    # generated code depend on what was built before)
+    from fsa.calls import callees_of
+    from rules.c14 import global_writes
+    from rules.common import module_bound_names
+    mod_names = module_bound_names(R.repo, 'fsic.fortran')
+    path_fns = [top.fi] + [g_ for g_ in callees_of(R.repo, top.fi) if g_.module.name == 'fsic.fortran' and g_.cls is None]
+    for g_ in path_fns:
+        ws = global_writes(g_, mod_names)
+        for w in ws:
+            R.violation(g_.qualname, 'generation-state:' + text(w)[:60], f'`{text(w)[:70]}` writes module-level state on the code-generation path: what is generated for one '
+                        f'model can depend on the models built before it (e.g. a cache keyed by the equation text alone reuses another model\'s variable numbers)',
+                        where=f'{g_.module.relpath}:{w.lineno}')
+        if not ws:
+            R.ok(g_.qualname, 'writes no module-level state', trivial=True)
+    f = top
+    loops = [n for n in f.cfg.nodes if n.kind == 'for' and any(method_call(x, 'finditer') for x in ast.walk(n.ast.iter))]
+    call_site = None  # (node in BFD, call expression) when the rewrite lives in a helper
+    if not loops:
+        hosts = [g_ for g_ in path_fns[1:] if any(isinstance(x, ast.For) and any(method_call(y, 'finditer') for y in ast.walk(x.iter)) for x in ast.walk(g_.node))]
+        if len(hosts) == 1:
+            sites = [(n, x) for n in top.cfg.nodes if n.ast is not None and n.kind == 'stmt' for x in ast.walk(n.ast) if is_call(x, hosts[0].name)]
+            if len(sites) == 1:
+                call_site = sites[0]
+                f = Fn(R, hosts[0].qualname)
+                loops = [n for n in f.cfg.nodes if n.kind == 'for' and any(method_call(x, 'finditer') for x in ast.walk(n.ast.iter))]
+    if not R.require(BFD, len(loops), 'loop over the matches', fi=top.fi, pred=lambda x: method_call(x, 'finditer')):
         return
-    pat = pats[0].ast.value.args[0]
-    R.check(isinstance(pat, ast.Constant) and pat.value == r'([_A-Za-z][_A-Za-z0-9]*)\[(.*?)\]', BFD, 'rewrite-pattern', 'variable references are identifier[index]',
-            f'pattern is {text(pat)}', where=f.where(pats[0]))
-    loops = [n for n in f.cfg.nodes if n.kind == 'for' and 'pattern.finditer' in text(n.ast.iter)]
-    if R.require(BFD, len(loops), 'loop over the matches', fi=f.fi, pred=lambda x: method_call(x, 'finditer')):
-        it = loops[0].ast.iter
-        R.check(is_call(it, 'reversed'), BFD, 'rewrite-reversed', 'in-place replacement runs right to left', 'matches are replaced left to right in a re-sliced string (stale offsets)',
-                where=f.where(loops[0]))
-    var = [n for n in f.cfg.nodes if n.kind == 'stmt' and isinstance(n.ast, ast.Assign) and text(n.ast.targets[0]) == 'variable']
-    if R.require(BFD, len(var), 'variable = f"solved_values(<number>, <index>)"', fi=f.fi, pred=lambda x: isinstance(x, ast.JoinedStr)):
-        from fsa.strshape import shape, show
-        parts = shape(var[0].ast.value)
-        want = [('lit', 'solved_values('), ('sym', 'variables_to_numbers[match[1]]'), ('lit', ', '), ('sym', "match[2].replace('t', 'index')"), ('lit', ')')]
-        R.check(parts == want, BFD, 'rewrite-shape:' + show(parts)[:80], 'NAME[idx] becomes solved_values(number of NAME, idx with t -> index)',
-                f'rewrite produces `{show(parts)[:90]}`: expected solved_values(<variables_to_numbers[match[1]]>, <match[2] with t -> index>) '
-                f'(the t -> index replacement must apply to the index group only)', where=f.where(var[0]))
-    sp = [n for n in f.cfg.nodes if n.kind == 'stmt' and isinstance(n.ast, ast.Assign) and text(n.ast.targets[0]) == 'code' and 'variable' in text(n.ast.value)]
-    R.check(bool(sp) and text(sp[0].ast.value) == 'code[:start] + variable + code[end:]', BFD, 'rewrite-splice', 'the reference is spliced at the match span',
-            f'`{text(sp[0].ast) if sp else "?"}`', where=f.fi.where)
+    lp = loops[0]
+    HQ = f.q
+
+    def at_top(e: ast.AST):
+        """(function, node id, expression) of `e` read in build_fortran_definition: a parameter of the helper is replaced
+        by the argument at the call site."""
+        if call_site is None:
+            return e
+        cn, cx = call_site
+        ps = f.fi.params()
+        bound = dict(zip(ps, cx.args))
+        for kw in cx.keywords:
+            if kw.arg:
+                bound[kw.arg] = kw.value
+        from fsa.match import substitute
+        return substitute(e, {k: v for k, v in bound.items() if not k.startswith('*')})
+    it = lp.ast.iter
+    fin = [x for x in ast.walk(it) if method_call(x, 'finditer')][0]
+    pat = f.expand(lp.id, fin.func.value)
+    if isinstance(pat, ast.Name) and pat.id not in f.lf.locals:
+        try:
+            pat = R.repo.module_assign('fsic.fortran', pat.id)
+        except Exception:
+            pass
+    if not (is_call(pat, 're.compile') and pat.args):
+        raise Unknown(f'{BFD}: the scanning pattern `{text(pat)[:60]}` is not re.compile(<constant>)')
+    R.check(isinstance(pat.args[0], ast.Constant) and pat.args[0].value == r'([_A-Za-z][_A-Za-z0-9]*)\[(.*?)\]' and len(pat.args) == 1 and not pat.keywords, BFD, 'rewrite-pattern',
+            'variable references are identifier[index]', f'pattern is {text(pat.args[0])}', where=f.where(lp))
+    if not isinstance(lp.ast.target, ast.Name):
+        raise Unknown(f'{BFD}: match loop target is not a name')
+    m = lp.ast.target.id
+    scanned = fin.args[0] if fin.args else None
+
+    def grp(t: str) -> str:
+        """Normal form of the ways to read a group / a span end of the match."""
+        t = _re.sub(rf"\b{m}\.groups\(\)\[(\d)\]", lambda k: f'{m}[{int(k.group(1)) + 1}]', t)
+        t = _re.sub(rf"\b{m}\.group\((\d)\)", lambda k: f'{m}[{k.group(1)}]', t)
+        t = t.replace(f'{m}.span()[0]', f'{m}.start()').replace(f'{m}.span()[1]', f'{m}.end()')
+        t = t.replace(f'{m}.span(0)[0]', f'{m}.start()').replace(f'{m}.span(0)[1]', f'{m}.end()')
+        return t
+
+    # the splice: C = C[:start] + <replacement> + C[end:]
+    splice = None
+    for n in f.cfg.nodes:
+        a_ = n.ast
+        if lp.id in n.loops and n.kind == 'stmt' and isinstance(a_, ast.Assign) and len(a_.targets) == 1 and isinstance(a_.targets[0], ast.Name):
+            c = a_.targets[0].id
+            if any(isinstance(x, ast.Subscript) and isinstance(x.value, ast.Name) and x.value.id == c and isinstance(x.slice, ast.Slice) for x in ast.walk(a_.value)):
+                splice = (n, c)
+    if splice is None:
+        raise Unknown(f'{BFD}: no in-place splice `code = code[:start] + ... + code[end:]` in the match loop')
+    sn, c = splice
+    R.check(is_call(it, 'reversed'), BFD, 'rewrite-reversed', 'in-place replacement runs right to left', 'matches are replaced left to right in a re-sliced string (stale offsets)',
+            where=f.where(lp))
+    v = sn.ast.value
+    terms = []
+    cur = v
+    while isinstance(cur, ast.BinOp) and isinstance(cur.op, ast.Add):
+        terms.insert(0, cur.right)
+        cur = cur.left
+    terms.insert(0, cur)
+    ok_sp = len(terms) == 3 and isinstance(terms[0], ast.Subscript) and isinstance(terms[2], ast.Subscript) \
+        and text(terms[0].value) == c and text(terms[2].value) == c and isinstance(terms[0].slice, ast.Slice) and isinstance(terms[2].slice, ast.Slice) \
+        and terms[0].slice.lower is None and terms[0].slice.upper is not None and grp(f.etext(sn.id, terms[0].slice.upper, stop=(m,))) == f'{m}.start()' \
+        and terms[2].slice.upper is None and terms[2].slice.lower is not None and grp(f.etext(sn.id, terms[2].slice.lower, stop=(m,))) == f'{m}.end()' \
+        and terms[0].slice.step is None and terms[2].slice.step is None
+    R.check(ok_sp, BFD, 'rewrite-splice', 'the reference is spliced at the match span', f'`{text(sn.ast)[:90]}` does not replace exactly the matched span', where=f.where(sn))
+    # the scanned text is the text spliced (its starting value)
+    if scanned is not None:
+        init = [d for d in f.vdefs(c) if lp.id not in d.node.loops]
+        same = bool(init) and all(f.etext(d.node.id, d.value) == f.etext(lp.id, scanned) for d in init)
+        R.check(same, BFD, 'rewrite-same-text', 'match offsets refer to the text being rewritten', f'`{c}` does not start as the scanned text `{text(scanned)}`', where=f.where(lp))
+    if len(terms) == 3:
+        rep_ = f.expand(sn.id, terms[1], stop=(m,))
+        parts = [(k, grp(t_) if k == 'sym' else t_) for (k, t_) in shape(rep_)]
+        nums = {x.id for x in ast.walk(f.fi.node) if isinstance(x, ast.Name)}
+        want_idx = f"{m}[2].replace('t', 'index')"
+        ok_shape = len(parts) == 5 and parts[0] == ('lit', 'solved_values(') and parts[2] == ('lit', ', ') and parts[4] == ('lit', ')') \
+            and parts[1][0] == 'sym' and _re.fullmatch(rf'(\w+)\[{m}\[1\]\]', parts[1][1]) is not None and parts[3] == ('sym', want_idx)
+        R.check(ok_shape, BFD, 'rewrite-shape:' + show(parts)[:80], 'NAME[idx] becomes solved_values(number of NAME, idx with t -> index)',
+                f'rewrite produces `{show(parts)[:90]}`: expected solved_values(<numbers[{m}[1]]>, <{m}[2] with t -> index>) '
+                f'(the t -> index replacement must apply to the index group only)', where=f.where(sn))
+        if ok_shape:
+            table = _re.fullmatch(rf'(\w+)\[{m}\[1\]\]', parts[1][1]).group(1)
+            tname = at_top(ast.Name(id=table, ctx=ast.Load()))
+            tdefs = top.vdefs(tname.id) if isinstance(tname, ast.Name) else []
+            okt = len(tdefs) == 1 and isinstance(tdefs[0].value, ast.DictComp) and is_call(tdefs[0].value.generators[0].iter, 'enumerate')
+            R.check(okt, BFD, 'rewrite-table', 'numbers come from the name -> number table (C07.R1)', f'`{table}` is not the enumerate() table', where=f.where(sn))
     # source: the normalised equations of endogenous symbols, in order
-    sw = [n for n in f.assigns_to('symbols_with_code')]
-    ok = bool(sw) and is_call(sw[0].ast.value, 'filter') and text(sw[0].ast.value.args[1]) == 'symbols' and 'Type.ENDOGENOUS' in text(sw[0].ast.value.args[0]) \
-        and 'equation is not None' in text(sw[0].ast.value.args[0])
-    R.check(ok, BFD, 'equations-source', 'equations are those of the endogenous symbols, in symbol order', 'symbols_with_code is not filter(endogenous with equation, symbols)', where=f.fi.where)
+    inner_node = lp if call_site is None else call_site[0]
+    outer = [top.cfg.nodes[i] for i in inner_node.loops]
+    if not outer or outer[-1].kind != 'for':
+        raise Unknown(f'{BFD}: the match loop is not nested in a loop over the symbols')
+    ol = outer[-1]
+    src = ol.ast.iter
+    if isinstance(src, ast.Name):
+        vals = top.lf.values_reaching(ol.id, src.id)
+        if len(vals) == 1 and vals[0][1] is not None:
+            src = vals[0][1]
+    comp = None
+    if is_call(src, 'filter') and len(src.args) == 2 and isinstance(src.args[0], ast.Lambda) and len(src.args[0].args.args) == 1:
+        lam = src.args[0]
+        comp = (lam.args.args[0].arg, lam.body, src.args[1], lam.args.args[0].arg)
+    elif isinstance(src, (ast.GeneratorExp, ast.ListComp)) and len(src.generators) == 1 and isinstance(src.generators[0].target, ast.Name):
+        g = src.generators[0]
+        cond = g.ifs[0] if len(g.ifs) == 1 else (ast.BoolOp(op=ast.And(), values=list(g.ifs)) if g.ifs else ast.Constant(value=True))
+        comp = (g.target.id, cond, g.iter, text(src.elt))
+    elif is_call(src, 'list', 'tuple', 'iter') and len(src.args) == 1 and isinstance(src.args[0], (ast.GeneratorExp, ast.ListComp)):
+        g = src.args[0].generators[0]
+        cond = g.ifs[0] if len(g.ifs) == 1 else (ast.BoolOp(op=ast.And(), values=list(g.ifs)) if g.ifs else ast.Constant(value=True))
+        comp = (text(g.target), cond, g.iter, text(src.args[0].elt))
+    if comp is None:
+        raise Unknown(f'{BFD}: the equation loop iterates `{text(src)[:70]}`')
+    x, cond, base, elt = comp
+    atoms = nnf_atoms(cond, True)
+    want = [(expr(f'{x}.type == Type.ENDOGENOUS'), True), (expr(f'{x}.equation is None'), False)]
+    ok = elt == x and text(base) == sym_param and len(atoms) == 2 and all(any(atoms_equal(a1, a2) and t1 == t2 for (a2, t2) in atoms) for (a1, t1) in want)
+    R.check(ok, BFD, 'equations-source', 'equations are those of the endogenous symbols, in symbol order',
+            f'the equation loop runs over `{text(src)[:90]}`: not the endogenous symbols with an equation, in symbol order', where=f.where(ol))
+    if scanned is not None and isinstance(ol.ast.target, ast.Name):
+        sc_top = at_top(f.expand(lp.id, scanned)) if call_site is not None else scanned
+        got = top.etext(inner_node.id, sc_top, stop=(ol.ast.target.id,))
+        R.check(got == f'{ol.ast.target.id}.equation', BFD, 'equations-text', 'the rewritten text is the normalised equation',
+                f'the rewritten text is `{got}`', where=top.where(inner_node))
 
 
 NUMERIC_TOKEN_HINTS = (r'\d', '[0-9]', r'\.', 'digit')
